@@ -23,6 +23,14 @@
                 configuration built in 3 other processes (PYTHONHASHSEED 0 / 1 / random)
       io        serialize -> load, serialize -> json text -> load, ZANJ save -> read: per family
                 exhaustively (element inside the default tokenizer) and for the sample
+      use       HISTORY of an object: every enumerated element inside the DEFAULT tokenizer (shared default
+                instances) and every sampled tokenizer: name / hash() / hash_b64() fresh, after to_tokens and
+                maze.as_tokens on a solved, a targeted and a plain 3x3 maze, of an equal twin built AFTER the
+                use, and of the used tokenizer saved to JSON text and loaded
+      history   HISTORY of a process (own interpreter): get_all_tokenizers() before and after
+                sample_all_tokenizers, sample_tokenizers_for_test(None | 10 | 2), all_tokenizers_set (thorough:
+                + save_hashes into /verif/.work) were called: size, the from_legacy images are members, the list
+                is still the same sequence of objects (else its name set is compared with the spec product again)
       legacy    from_legacy for the 3 modes (enum value and MazeTokenizer object), legacyset: who reports
                 is_legacy_equivalent (quick: all one-component neighbours of the images + the sample;
                 thorough: all 5 878 656)
@@ -538,6 +546,180 @@ def observe_space(chk, emit, deep, seeds, hstride=1, fam_sizes=None):
     return rec, dict(n=n, legacy=legacy)
 
 
+# ------------------------------------------------------------------ (C) HISTORY 2: identity after USE
+_MAZES = None
+_INSTS = None  # family -> enumerated instances (set before forking the observers)
+
+
+def _mazes():
+    """one plain, one targeted and one solved 3x3 maze (a comb-shaped spanning tree: the solution has forks and turns)"""
+    global _MAZES
+    if _MAZES is None:
+        from harness import mz
+
+        conn = mz.conn_from_int(3, 3, 255)  # all six vertical edges + the two horizontal edges of row 0
+        plain = mz.LatticeMaze(connection_list=conn)
+        targ = mz.TargetedLatticeMaze(connection_list=conn, start_pos=np.array([2, 0]), end_pos=np.array([2, 2]))
+        solved = mz.SolvedMaze.from_targeted_lattice_maze(targ)
+        _MAZES = [("solved.to_tokens", solved, 0), ("solved.as_tokens", solved, 1), ("targeted.to_tokens", targ, 0), ("targeted.as_tokens", targ, 1), ("plain.to_tokens", plain, 0), ("plain.as_tokens", plain, 1)]
+    return _MAZES
+
+
+def observe_use(args):
+    """name / hash of a tokenizer BEFORE it is used, AFTER it has tokenized mazes, of an equal twin built after
+    the use and of the used tokenizer saved and loaded.  src = ("cfg", cfg) (built with explicit arguments) or
+    ("family", K, j) (enumerated element j of family K put into the DEFAULT tokenizer: the other components are
+    the library's shared default instances)"""
+    src = args
+    if src[0] == "cfg":
+        c = src[1]
+        res0, t = _run(lambda: build(c))
+        label = "sample"
+    else:
+        _, K, j = src
+        res0, t = _run(lambda: wrap(K, _INSTS[K][j]))
+        c = dump(t) if res0 == "ok" else {}
+        label = "family:" + K
+        if not (isinstance(c, dict) and typed(c)):
+            return dict(kind="untyped", K="use:" + label, repr=repr(c)[:300])
+    rec = dict(kind="use", src=label, cfg=c, res=res0, name="", hash="", b64="", uses=[], n_used_ok=0, name_used="", hash_used="", b64_used="",
+               twin_eq=False, twin_name="", twin_hash="", load_res="", load_eq=False, load_name="")
+    if res0 != "ok":
+        return rec
+    mt = _mt()
+    rec.update(name=_s(lambda: t.name), hash=_h(lambda: hash(t)), b64=_s(lambda: t.hash_b64()))
+    for what, maze, via in _mazes():
+        r, toks = _run((lambda: maze.as_tokens(t)) if via else (lambda: t.to_tokens(maze)))
+        rec["uses"].append(what + ":" + r)
+        rec["n_used_ok"] += r == "ok" and isinstance(toks, list) and len(toks) > 0
+    rec.update(name_used=_s(lambda: t.name), hash_used=_h(lambda: hash(t)), b64_used=_s(lambda: t.hash_b64()))
+    r1, u = _run(lambda: build(json.loads(json.dumps(c))))  # a fresh equal tokenizer, built AFTER the use
+    rec.update(twin_eq=r1 == "ok" and u is not t and _tf(lambda: u == t) == "T", twin_name=_s(lambda: u.name), twin_hash=_h(lambda: hash(u)))
+    r2, v = _run(lambda: mt.MazeTokenizerModular.load(json.loads(json.dumps(t.serialize()))))
+    rec.update(load_res=r2 if (r2 != "ok" or v is not None) else "raise:ReturnedNone", load_eq=r2 == "ok" and _tf(lambda: v == t) == "T", load_name=_s(lambda: v.name) if r2 == "ok" else "")
+    return rec
+
+
+# ------------------------------------------------------------------ (C) HISTORY 1: the enumeration after its consumers ran
+def _worker_history():
+    """subprocess: get_all_tokenizers() observed BEFORE and AFTER every public helper of all_tokenizers.py that
+    consumes it has been called IN THIS PROCESS (count, membership of the from_legacy images, the members
+    themselves; if the list is no longer the same sequence of objects its name set is compared with the spec
+    product again).  argv: <emit.ndjson> <out.json> <tier>"""
+    import warnings
+
+    warnings.filterwarnings("ignore")
+    try:  # this single thread is the critical path of the quick tier: ask the scheduler to prefer it (no effect without the privilege)
+        os.nice(-10)
+    except Exception:  # noqa: BLE001
+        pass
+    emit_path, out, tier = sys.argv[-3:]
+    rec = dict(kind="history", res="ok", calls=[], before_n=0, after_n=0, images=[], before_images=[], after_images=[], same_members=False,
+               after_missing=-1, after_extra=-1, after_distinct=-1, first_change="", wall_s=0)
+    t0 = time.time()
+
+    def finish():
+        rec["wall_s"] = round(time.time() - t0, 1)
+        json.dump(rec, open(out, "w"))
+
+    r, _ = _run(lambda: (_mt(), _classes()))
+    if r != "ok":
+        rec["res"] = r
+        return finish()
+    import maze_dataset.tokenization.all_tokenizers as at
+
+    mt = _mt()
+    imgs = []
+    for m in mt.TokenizationMode:
+        r, t = _run(lambda: mt.MazeTokenizerModular.from_legacy(m))
+        c = dump(t) if r == "ok" else None
+        if isinstance(c, dict) and typed(c) and ckey(c) not in [ckey(x[1]) for x in imgs]:
+            imgs.append((t, c))
+    rec["images"] = [c for _, c in imgs]
+    res = enumerate_all()
+    if res != "ok" or not _ALL:
+        rec["res"] = res if res != "ok" else "raise:EmptyEnumeration"
+        return finish()
+    before = list(_ALL)  # the members themselves (a shallow copy of the list)
+    rec["before_n"] = len(before)
+
+    def member(lst, t):
+        r, v = _run(lambda: t in lst)
+        return r == "ok" and bool(v)
+
+    rec["before_images"] = [member(before, t) for t, _ in imgs]
+
+    def same(now):
+        return isinstance(now, list) and len(now) == len(before) and all(a is b for a, b in zip(now, before))
+
+    tmp = tempfile.mkdtemp(prefix="c15h_", dir=str(lib.WORK))
+    calls = [
+        ("sample_all_tokenizers(3)", lambda: at.sample_all_tokenizers(3)),
+        ("sample_tokenizers_for_test(None)", lambda: at.sample_tokenizers_for_test(None)),
+        ("sample_tokenizers_for_test(10)", lambda: at.sample_tokenizers_for_test(10)),
+        ("sample_tokenizers_for_test(2)", lambda: at.sample_tokenizers_for_test(2)),
+        ("all_tokenizers_set()", lambda: at.all_tokenizers_set()),
+    ]
+    if tier == "thorough":  # writes only below /verif/.work
+        calls.append(("save_hashes(path=<scratch>)", lambda: at.save_hashes(path=os.path.join(tmp, "hashes.npz"), verbose=False, parallelize=False)))
+    now = before
+    try:
+        for name, fn in calls:
+            tc = time.time()
+            r, v = _run(fn)
+            r2, now = _run(at.get_all_tokenizers)
+            ok = r2 == "ok" and same(now)
+            rec["calls"].append(dict(call=name, res=r, returned=(len(v) if hasattr(v, "__len__") else -1) if r == "ok" else -1, enumeration_same_after=ok, wall_s=round(time.time() - tc, 1)))
+            if not ok and not rec["first_change"]:
+                rec["first_change"] = name
+    finally:
+        shutil.rmtree(tmp, ignore_errors=True)
+    if not isinstance(now, list):
+        rec["res"] = "raise:EnumerationNotAList"
+        return finish()
+    rec["after_n"] = len(now)
+    rec["same_members"] = same(now)
+    if rec["same_members"]:
+        rec["after_images"] = list(rec["before_images"])
+    else:
+        rec["after_images"] = [member(now, t) for t, _ in imgs]
+        globals()["_ALL"] = now
+        if len(now) > 0:
+            names, _, n_raise, _, _, err = scan_all(False, 10**9)
+            real = set(names)
+            emit = [json.loads(x) for x in open(emit_path) if x.strip()]
+            hit = sum(1 for s_ in spec_product(emit) if s_ in real)
+            fam = {d["K"]: len(d["names"]) for d in emit if d["K"] != "fmt"}
+            n_spec = fam["coord"] * fam["adj"] * fam["path"] * (fam["target"] + 1)
+            rec.update(after_distinct=len(real), after_missing=n_spec - hit, after_extra=len(real) - hit)
+            if n_raise:
+                rec["res"] = "raise:" + err
+        else:
+            rec.update(after_distinct=0, after_missing=PRED_FULL, after_extra=0)
+    finish()
+
+
+def start_history(hdir, emit_path, tier):
+    out = os.path.join(hdir, "history.json")
+    p = subprocess.Popen([sys.executable, "-W", "ignore", "-c", "from harness.checks import c15; c15._worker_history()", emit_path, out, tier],
+                         cwd=str(lib.VERIF), env=dict(os.environ), stdout=subprocess.DEVNULL, stderr=subprocess.PIPE, text=True)
+    return p, out
+
+
+def collect_history(h):
+    p, out = h
+    try:
+        _, se = p.communicate(timeout=3600)
+    except subprocess.TimeoutExpired:
+        p.kill()
+        se = "timeout"
+    if True:
+        if os.path.exists(out):
+            return json.load(open(out))
+        print(f"  [c15] history worker failed: {(se or '')[-400:]}")
+        return dict(kind="history", res="raise:ProcessFailed", calls=[], before_n=0, after_n=0, images=[], before_images=[], after_images=[], same_members=False, after_missing=-1, after_extra=-1, after_distinct=-1, first_change="", wall_s=0)
+
+
 # ------------------------------------------------------------------ (C) legacy
 def observe_legacy():
     mt = _mt()
@@ -613,6 +795,12 @@ def canaries():
     good_io = dict(kind="io", via="json", cfg=_C_TOK, name=_C_NAME, hash="5", res="ok", eq=True, name2=_C_NAME, hash2="5", typed2=True, cfg2=_C_TOK, tag="canary")
     good_space = dict(kind="space", scope="full", res="ok", n_items=5878656, n_distinct_names=5878656, n_hashed=5878656, n_distinct_hashes=5878656, n_spec=5878656, n_missing=0, n_extra=0, n_invalid=0, n_unstable=0, first_error="")
 
+    good_use = dict(kind="use", src="canary", cfg=_C_TOK, res="ok", name=_C_NAME, hash="77", b64="q", uses=["solved.to_tokens:ok"], n_used_ok=1, name_used=_C_NAME, hash_used="77", b64_used="q",
+                    twin_eq=True, twin_name=_C_NAME, twin_hash="77", load_res="ok", load_eq=True, load_name=_C_NAME)
+    dirty = _C_NAME.replace("pre=F, intra=F, post=F))", "pre=F, intra=F, post=F, _cache=T))")
+    good_hist = dict(kind="history", res="ok", calls=[dict(call="sample_tokenizers_for_test(10)", res="ok", returned=10, enumeration_same_after=True, wall_s=1)], images=[_C_TOK, tok2],
+                     before_n=5878656, before_images=[True, True], after_n=5878656, after_images=[True, True], same_members=True, after_missing=-1, after_extra=-1, after_distinct=-1, first_change="", wall_s=1)
+
     def mod(base, **kw):
         d = _cp(base)
         d.update(kw)
@@ -655,6 +843,19 @@ def canaries():
         (mod(good_space, n_invalid=1), "enum_invalid_config"),
         (mod(good_space, n_unstable=2), "hash_unstable_across_processes"),
         (mod(good_space, res="raise:MemoryError"), "enumeration_raises"),
+        (mod(good_use, name_used=dirty), "name_changed_by_use"),
+        (mod(good_use, hash_used="78"), "hash_changed_by_use"),
+        (mod(good_use, b64_used="r"), "hash_changed_by_use"),
+        (mod(good_use, name_used=dirty, hash_used="78", load_name=dirty), "equal_tokenizers_differ_after_use"),
+        (mod(good_use, name_used=dirty, hash_used="78", twin_name=dirty, twin_hash="78"), "loaded_name_differs_after_use"),
+        (mod(good_use, name=dirty, name_used=dirty, twin_name=dirty, load_name=dirty), "name_differs_from_grammar"),
+        (mod(good_hist, after_n=5878654, after_images=[False, False], same_members=False, after_missing=2, after_extra=0, after_distinct=5878654), "enumeration_changed_by_use"),
+        (mod(good_hist, after_n=5878654, same_members=False, after_missing=0, after_extra=0, after_distinct=5878654), "enumeration_changed_by_use"),
+        (mod(good_hist, same_members=False, after_missing=1, after_extra=1, after_distinct=5878656), "enumeration_changed_by_use"),
+        (mod(good_hist, after_images=[True, False]), "enumeration_changed_by_use"),
+        (mod(good_hist, before_images=[False, True], after_images=[False, True]), "enum_missing_valid_config"),
+        (mod(good_hist, before_n=5878654, after_n=5878654), "space_size_not_predicted"),
+        (mod(good_hist, res="raise:ProcessFailed"), "enumeration_raises"),
         (dict(kind="legacy", via="mode", mode="AOTP_UT_uniform", res="ok", cfg=_C_TOK, name=_C_NAME, self_reports="F"), "legacy_image_not_self_reported"),
         (dict(kind="legacy", via="mode", mode="AOTP_CTT_indexed", res="ok", cfg=_C_TOK, name=_C_NAME, self_reports="T"), "M:legacy_image_differs_from_model"),
         (dict(kind="legacyset", scope="canary", full=False, images=[_C_TOK, tok2], claimed=[_C_TOK, tok2, mod(_C_TOK, prompt_sequencer=mod(_C_TOK["prompt_sequencer"], target_tokenizer={"cls": "Unlabeled", "post": True}))]), "non_image_reports_legacy_equivalent"),
@@ -742,22 +943,34 @@ def main(chk: lib.Check) -> int:
         "cases = (a) every point of each of the 9 element parameter spaces (raw: all classes x all field values; enum: the validated "
         "enumeration), (b) the complete get_all_tokenizers() list as one 'space' case + a seeded sample of its members and of random points "
         "of the raw product as 'tok' cases (each built in 3 more processes), (c) save/load cases (per family exhaustive inside the default "
-        "tokenizer + the sample), (d) legacy mapping cases; non-trivial = a point a validity rule excludes or a nested/tuple-valued "
+        "tokenizer + the sample), (d) legacy mapping cases, (e) HISTORY cases: every (c)-tokenizer observed fresh, after tokenizing a solved / targeted / "
+        "plain maze, against a twin built afterwards and after save/load ('use'); the enumeration observed before and after all its public consumers "
+        "ran in one process ('history'); non-trivial = a point a validity rule excludes or a nested/tuple-valued "
         "configuration (raw), a complete tokenizer whose configuration differs from every other case (tok/io)"
     )
-    # ---- (A) design level
-    tmp = tempfile.mkdtemp(prefix="c15e_", dir=str(lib.WORK) if lib.WORK.exists() else None)
+    # ---- HISTORY 1 runs in its own interpreter, concurrently with everything below (the library's set-building helper alone
+    #      hashes 5.9M tokenizers in one thread); it reads the TLC-emitted name sets only if the enumeration changed
+    lib.WORK.mkdir(exist_ok=True)
+    hdir = tempfile.mkdtemp(prefix="c15hh_", dir=str(lib.WORK))
+    emit_path = os.path.join(hdir, "emit.ndjson")
+    hist = start_history(hdir, emit_path, chk.tier)
     try:
-        emit_path = os.path.join(tmp, "emit.ndjson")
-        r = lib.tlc_design("TokSpace", "TokSpace_small.cfg", env={"VERIF_EMIT": emit_path}, workers=1, tag="d")
-        chk.add_model("TokSpace/small", r, "9 element families: cardinalities 9/3/3/3/216/2/2/4/1008 (raw 9/11/3/3/1584/2/4/4/10880), product 5 878 656, names injective + well nested, composition, legacy set")
-        if r.distinct != len(FAMILIES):
-            raise lib.MachineryError(f"TokSpace design run visited {r.distinct} families, expected {len(FAMILIES)}")
-        rb = lib.tlc_expect_violation("TokSpace", "TokSpace_broken.cfg", "CardInv", workers=1, tag="b")
-        chk.add_model("TokSpace/broken(pre admitted)", rb, "deliberately broken validity rule: TLC must report CardInv violated")
-        emit = [json.loads(x) for x in open(emit_path) if x.strip()]
+        return _main(chk, thorough, hist, emit_path)
     finally:
-        shutil.rmtree(tmp, ignore_errors=True)
+        if hist[0].poll() is None:
+            hist[0].kill()
+        shutil.rmtree(hdir, ignore_errors=True)
+
+
+def _main(chk, thorough, hist, emit_path):
+    # ---- (A) design level
+    r = lib.tlc_design("TokSpace", "TokSpace_small.cfg", env={"VERIF_EMIT": emit_path}, workers=1, tag="d")
+    chk.add_model("TokSpace/small", r, "9 element families: cardinalities 9/3/3/3/216/2/2/4/1008 (raw 9/11/3/3/1584/2/4/4/10880), product 5 878 656, names injective + well nested, composition, legacy set")
+    if r.distinct != len(FAMILIES):
+        raise lib.MachineryError(f"TokSpace design run visited {r.distinct} families, expected {len(FAMILIES)}")
+    rb = lib.tlc_expect_violation("TokSpace", "TokSpace_broken.cfg", "CardInv", workers=1, tag="b")
+    chk.add_model("TokSpace/broken(pre admitted)", rb, "deliberately broken validity rule: TLC must report CardInv violated")
+    emit = [json.loads(x) for x in open(emit_path) if x.strip()]
     sizes = {d["K"]: len(d["names"]) for d in emit if d["K"] != "fmt"}
     chk.notes["spec_emitted_name_sets"] = sizes
     if sizes != {"coord": 9, "adj": 216, "target": 2, "path": 1008}:
@@ -766,6 +979,7 @@ def main(chk: lib.Check) -> int:
     # ---- the library (an import failure is an outcome)
     res, _ = _run(lambda: (_mt(), _bases(), _classes()))
     if res != "ok":
+        collect_history(hist)
         chk.violation("library_import_raises", dict(kind="import", res=res), "import")
         return chk.finish("the tokenization modules could not be imported")
 
@@ -852,8 +1066,28 @@ def main(chk: lib.Check) -> int:
     io = [x for sub in lib.pmap(observe_io, io_jobs, chunksize=16) for x in sub]
     recs += io
 
+    # ---- (C) HISTORY 2: identity before / after use (every enumerated element inside the default tokenizer + the sample)
+    global _INSTS
+    _INSTS = insts
+    use_jobs = [("family", K, j) for K in FAMILIES for j in range(len(insts.get(K, [])))] + [("cfg", t["cfg"]) for t in toks]
+    uses = lib.pmap(observe_use, use_jobs, chunksize=32)
+    recs += uses
+    chk.notes["use_history"] = dict(cases=len(uses), tokenizations_ok=sum(u.get("n_used_ok", 0) for u in uses), cases_with_a_successful_tokenization=sum(1 for u in uses if u.get("n_used_ok", 0) > 0))
+
+
     # ---- judge
-    judge(chk, recs, canaries(), "element families (enum + raw), whole-space counts, sampled tokenizers x 4 processes, save/load, legacy")
+    judge(chk, recs, canaries(), "element families (enum + raw), whole-space counts, sampled tokenizers x 4 processes, save/load, identity before/after use, legacy")
+
+    # ---- (C) HISTORY 1: the enumeration before / after its consumers ran (own interpreter, started first; judged on its own
+    #      because it finishes last)
+    hrec = collect_history(hist)
+    chk.notes["enumeration_history"] = {k: v for k, v in hrec.items() if k not in ("kind", "images")}
+    print(f"  [c15] enumeration history: res={hrec['res']} before={hrec['before_n']} after={hrec['after_n']} same_members={hrec['same_members']} first_change={hrec['first_change']!r} wall={hrec['wall_s']}s")
+    hrec["id"] = 0
+    hres = lib.oracle("Trace_TokSpace", [hrec], tag="hist", shards=1)
+    chk.add_oracle("Trace_TokSpace", hres, "the enumeration before / after sample_all_tokenizers, sample_tokenizers_for_test(None|10|2), all_tokenizers_set" + (", save_hashes" if thorough else "") + " ran in the same process")
+    chk.judge({0: _brief(hrec)}, hres, label="space")
+    recs.append(hrec)
 
     # ---- evidence
     seen = set()
@@ -861,6 +1095,10 @@ def main(chk: lib.Check) -> int:
         k = r["kind"]
         if k == "raw":
             chk.count([k, r["K"], r["cfg"]], _nontrivial_raw(r))
+        elif k == "use":
+            chk.count([k, r["src"], ckey(r["cfg"])], r["n_used_ok"] > 0)
+        elif k == "history":
+            chk.count([k], True)
         elif k in ("tok", "io"):
             key = [k, r.get("via", ""), ckey(r["cfg"])]
             chk.count(key, tuple(key) not in seen)
@@ -922,6 +1160,16 @@ def reobserve(case):
         p = run_in_processes([case["cfg"]])
         t["procs"] = [dict(seed=s, **p[s][0]) for s in p]
         return [t]
+    if k == "use":
+        return [observe_use(("cfg", case["cfg"]))]
+    if k == "history":
+        tmp = tempfile.mkdtemp(prefix="c15e_", dir=str(lib.WORK))
+        try:
+            ep = os.path.join(tmp, "emit.ndjson")
+            lib.tlc_design("TokSpace", "TokSpace_small.cfg", env={"VERIF_EMIT": ep}, workers=1, tag="rp")
+            return [collect_history(start_history(tmp, ep, "quick"))]
+        finally:
+            shutil.rmtree(tmp, ignore_errors=True)
     if k == "io":
         return [r for r in observe_io((case["cfg"], case.get("via") == "zanj", case.get("tag", "replay"))) if r["via"] == case.get("via")] or observe_io((case["cfg"], True, "replay"))
     if k in ("legacy", "legacyset"):
